@@ -1,7 +1,7 @@
 SPECIFICATION SpecLegal
 CONSTANT Cfg <- MCCfg2
 CONSTANT Solutions <- AllSolutions
-CONSTANT MaxEmpty = 3
+CONSTANT MaxEmpty = 5
 CONSTANT Extra = 1
 INVARIANT TypeOK
 INVARIANT Protocol
